@@ -85,6 +85,9 @@ class Session:
     def up(self, n, ty, d, seq=0, sv=0, drain=True):
         pk = wire.packet([wire.msg(n, seq, ty, d)])
         self._add("feed " + wire.hexs(pk), {"e": "up", "n": list(n), "ty": ty, "d": list(d), "sv": sv, "sq": seq, "dr": 1 if drain else 0}, drain=drain)
+    def lists(self):
+        """every enumeration getter (Config!ListsOkT against the allocation table / availability as they are now)"""
+        self._add("get lists", {"e": "lists", "_lists": 1}, get=False)
     def drain(self): self._add("drain", {"e": "drain", "_q": 1})
     def read(self, k): self._add("readmsg" if k == "msg" else "readerr", {"e": "rd", "k": k, "_m": 1})
     def hl(self, fn, sargs, i=0):
@@ -190,6 +193,9 @@ def to_events(sess, rr):
             if not res or res.get("b") is None: probs.append("bundle missing at line %d" % e["act"]); break
             ev["k"] = res["k"]; ev["b"] = keyed_bundle(res["b"])
         if ev.pop("_m", None): ev["m"] = wire.unhex(a[0]["m"]) if a[0].get("m") else []
+        if ev.pop("_lists", None):
+            if a[0].get("res") is None: probs.append("lists missing at line %d" % e["act"]); break
+            ev["lists"] = a[0]["res"]
         if ev.get("e") == "up" and e["drain"] is None: ev["qm"] = []; ev["qe"] = []; ev["qi"] = []
         outs = list(a)
         if e["drain"] is not None:
